@@ -609,7 +609,8 @@ func TestMergeC08C09(t *testing.T) {
 			case a == "EVENT":
 				doClientSend(&mocrelay.ClientEventMsg{Event: rapid.SampledFrom(submit).Draw(t, lab+"ev")})
 			case a == "COUNT":
-				doClientSend(&mocrelay.ClientCountMsg{SubscriptionID: rapid.SampledFrom([]string{"x", "y"}).Draw(t, lab+"sub"), ReqFilters: []*mocrelay.ReqFilter{{}}})
+				// COUNT ids overlap the REQ/CLOSE ids: a CLOSE must not disturb a COUNT in flight
+				doClientSend(&mocrelay.ClientCountMsg{SubscriptionID: rapid.SampledFrom([]string{"x", "a", "b"}).Draw(t, lab+"sub"), ReqFilters: []*mocrelay.ReqFilter{{}}})
 			case a == "notice":
 				doEmit(rapid.IntRange(0, n-1).Draw(t, lab+"child"), mocrelay.NewServerNoticeMsg("hello"))
 			case strings.HasPrefix(a, "ev"):
